@@ -14,7 +14,7 @@ CHECKS = {
         'text': 'Condition-variable discipline on both queue classes, on every path of every instantiation: predicate-form waits '
                 'under queueListMutex; the wait predicate formula is equivalent to what the property states (truth table over its atoms); '
                 'every write that can enable the predicate is made under the waiters\' mutex and followed by notify; '
-                'DisableQueueNotify ctor/dtor balanced and sole writers; every queue constructor starts queueNotifyCounter at a constant zero; the silent put-back of processIf/processUntil lies inside an in-dispatch guard entered before the take, and that counter (read by the wait predicate) is written only by its RAII guard. A violation of any clause yields a schedule with a lost wake-up.',
+                'DisableQueueNotify ctor/dtor balanced, increment/decrement only, and sole writers; every queue constructor starts queueNotifyCounter at a constant zero; the silent put-back of processIf/processUntil lies inside an in-dispatch guard entered before the take, and that counter (read by the wait predicate) is written only by its RAII guard. A violation of any clause yields a schedule with a lost wake-up.',
         'note': COMMON_NOTE + 'Not decided: liveness under fair scheduling, notify_one vs many waiters, timing of waitFor.',
         'technique': 'lockset + dominance over clang CFG, predicate formula extraction with truth-table implication, call-graph notify-after rule',
     },
@@ -51,7 +51,7 @@ CHECKS['C04'] = {
             'dispatch (both forms), directDispatch, both CallbackList::operator() variants and the queue dispatch helper, for by-value class-type '
             'keys/arguments and const-ref/by-value getEvent policies; (b) listener lists are invoked only by directDispatch, on the list returned by '
             'the lookup of its own event parameter, with its own arguments in order; dispatch passes getEvent(own arguments) and the own arguments; '
-            'the lookup searches the given key under listenerMutex; append/prepend/insert/removeListener perform exactly the matching list operation; '
+            'the lookup searches the given key under listenerMutex; append/prepend/insert/removeListener perform exactly the matching list operation; removeListener/ownsHandle/hasAnyListener/forEach/forEachIf apply the one list operation to the looked-up list object itself and answer like an empty list when the event has none; '
             'the default getEvent policy moves from none of its arguments; (c) static_assert and compile-fail witnesses for SelectGetEvent/SelectMap/argument-passing modes under g++ and clang++.',
     'note': COMMON_NOTE + 'Not decided: equality/hash semantics of user key types, argument values.',
     'technique': 'use-after-move analysis incl. unsequenced operands (AST LCA + CFG reachability), def-use funnel rules, compile-time witnesses',
@@ -98,7 +98,7 @@ CHECKS['C15'] = {
     'text': 'Typestate of ScopedRemover (both specialisations) on every path: reset() dominates every overwrite of the record or target outside '
             'constructors; the destructor resets on every path; reset walks the whole record calling the target\'s remove, then clears; each add function '
             'records the handle returned by the matching add call under the record mutex on every normal path and returns it; remove erases the record '
-            'first and detaches only what was recorded; records leave itemList only after their listeners were detached (a throwing removal must not orphan the rest); remove searches and erases the record inside one critical section; the target list\'s add operations return a handle to the node they linked (pointer-program evaluation on every list shape up to length 3); move construction and swap transfer/exchange both fields.',
+            'first and detaches only what was recorded; records leave itemList only after their listeners were detached (a throwing removal must not orphan the rest); remove searches and erases the record inside one critical section; the target list\'s add operations return a handle to the node they linked (pointer-program evaluation on every list shape up to length 3); move construction and swap transfer/exchange both fields, swap unconditionally.',
     'note': COMMON_NOTE + 'Not decided: histories as such (follow from the per-method invariant recorded >= attached-through-me).',
     'technique': 'dominance/post-dominance rules over clang CFG, def-use of the returned handle, field-completeness from class facts',
 }
@@ -107,7 +107,7 @@ CHECKS['C05'] = {
     'text': 'Abstract interpretation (eppsa/slots.py) of the EMPTY/FULL slot protocol, list contents and element counts over every processing '
             'function of both queues, with helpers that receive slot lists interpreted at the call site: every get/clear/set meets the protocol, '
             'only FULL slots re-enter queueList and only EMPTY ones are recycled, `return true` needs a certainly consumed slot; positional rules '
-            '(enqueue at end, take at begin, put-back at begin); no FULL slot dies with a local list on a normal path (an event neither dispatched, taken, cleared nor handed back); single take site outside loops and never after user code; queued dispatch passes '
+            '(enqueue at end, take at begin, put-back at begin); no FULL slot dies with a local list on a normal path (an event neither dispatched, taken, cleared nor handed back); single take site outside loops, never after user code, guarded by nothing but non-emptiness, into a list local to the call; queued dispatch passes '
             'the slot\'s own event and stored arguments in index order; stored-by-value witness; no use-after-move on enqueue/take.',
     'note': COMMON_NOTE + 'Not decided: FIFO across arbitrary histories beyond the positional invariants; argument values. The interpretation joins paths (path-insensitive except for emptiness/cursor tests).',
     'technique': 'typestate abstract interpretation over clang CFG (slot states, list contents with cardinality, cursor split), dominance rules, use-after-move',
@@ -116,7 +116,7 @@ CHECKS['C12'] = {
     'text': 'Gate dominance (listener invocation only on the true edge of the mixin chain, evaluated before lookup) in both dispatchers and the '
             'heterogeneous doDispatch; mixin chain extracted as a conjunction in list order; filters and listeners receive the same parameter objects '
             '(lvalue references, no copy); mixinBeforeDispatch formula equals the forEachIf result with lvalue arguments; both operator() variants call '
-            'canContinueInvoking after every callback with the same parameters and stop on false; the hook invoked at each level of the mixin chain is that level\'s own (two known findings, K3: an inherited filter hook runs twice); ConditionalFunctor and ArgumentAdapter shapes and by-value storage of what they wrap.',
+            'canContinueInvoking after every callback with the same parameters and stop on false; the hook invoked at each level of the mixin chain is that level\'s own (two known findings, K3: an inherited filter hook runs twice); ConditionalFunctor and ArgumentAdapter shapes, by-value storage of what they wrap, adapter casts (a converted shared_ptr shares ownership).',
     'note': COMMON_NOTE + 'Not decided: what filters do to values, conversion semantics of user types; "removed filters never run again" is C01/C02 on the filter list.',
     'technique': 'dominance over clang CFG, boolean formula extraction with truth-table equivalence, def-use identity of argument objects',
 }
@@ -139,12 +139,12 @@ CHECKS['C16'] = {
 CHECKS['C18'] = {
     'text': 'Extracted formulas of AnyId operator==, operator< (compareEqual/compareLessThan overload selected per storage inlined) evaluated over all 13 '
             'weak orderings of digests x 13 of stored values (or no value comparison) of three ids: equivalence, strict weak order, incomparable <=> equal, '
-            'equal => same digest, value/empty storage clauses (any further relation the operators consult, e.g. a storage\'s type(), is enumerated as a weak ordering of its own); digests reach the comparisons without a value-changing conversion; std::hash reads only the digest; the converting constructor does not move from the value between digesting and storing it (by-value digester witness); hashed map selection witness. Exhaustive over orderings.',
+            'equal => same digest, value/empty storage clauses (any further relation the operators consult, e.g. a storage\'s type(), is enumerated as a weak ordering of its own); digests reach the comparisons without a value-changing conversion; std::hash reads only the digest and hashes its value (not its object representation); no constructor, the default one included, leaves the digest indeterminate; the converting constructor does not move from the value between digesting and storing it (by-value digester witness); hashed map selection witness. Exhaustive over orderings.',
     'note': COMMON_NOTE + 'Assumes the digester is a function and the stored type\'s ==/< are an equivalence / strict weak order consistent with each other.',
     'technique': 'boolean formula extraction with inlining, exhaustive enumeration of orderings (finite since values are touched only through comparisons)',
 }
 CHECKS['C19'] = {
-    'text': 'getNextCounter: result variable drawn by atomic pre-increment, tested against 0, redrawn on every path of the zero edge, unsigned type; on '
+    'text': 'Generations are drawn through getNextCounter only (no raw increment of currentCounter elsewhere); getNextCounter: result variable drawn by atomic pre-increment, tested against 0, redrawn on every path of the zero edge, unsigned type; on '
             'the zero edge a recognised walk from head over next rewrites every linked node to the constant 1 under the mutex before the redraw; traversal '
             'comparison non-strict with no extra guard; swap exchanges and move assignment transfers the counter with the nodes.',
     'note': COMMON_NOTE + 'Not decided: arithmetic over 2^32 additions as such; concurrent wraps.',
@@ -179,7 +179,7 @@ CHECKS['C10'] = {
 }
 CHECKS['C17'] = {
     'text': 'Over a witness family of payload sizes 1..232 bytes x capacities 8/16/24/64: every placement-new fits the buffer (layout facts); the inline constructor '
-            'is instantiated exactly when sizeof(T) <= max(capacity, sizeof(LargeData)); the stored function table is that of exactly the constructed type, and tables/deleters exist only for unqualified object types; '
+            'is instantiated exactly when sizeof(T) <= max(capacity, sizeof(LargeData)); the stored function table is that of exactly the constructed type, and tables/deleters exist only for unqualified object types, a table\'s move entry is empty only for trivially copyable T; '
             'isLargerData/isType/getAddress/accessors derive from those tables and from getAddress; function table entries destroy / move-construct exactly T; '
             'lifetime shape of AnyData and LargeData; client programs constructing from every value category x constness x size build under g++ and clang++ (witness/s_anydata.cpp).',
     'note': COMMON_NOTE + 'Not decided: equality of read-back values, address stability, alignment of over-aligned payloads.',
